@@ -9,7 +9,8 @@ Open Scope Z_scope.
 Open Scope bool_scope.
 
 Record side_obs : Set := mkSide {
-  s_setup : option Setup;          (* a=setup of the description this side generated *)
+  s_setups : list Setup;           (* media-level a=setup values of the description this side generated *)
+  s_session_setup : option Setup;  (* its session-level a=setup *)
   s_bundle : bool;                 (* a=group:BUNDLE in it *)
   s_mux : bool;                    (* a=rtcp-mux on its audio/video sections *)
   s_role : option bool;            (* PeerConnection dtls_role *)
@@ -25,6 +26,12 @@ Record side_obs : Set := mkSide {
 Record case : Set := mkCase { k_point : point; k_known : bool; k_off : side_obs; k_ans : side_obs }.
 
 Definition bool_opt_eqb := opt_eqb Bool.eqb.
+Fixpoint setups_eqb (a b : list Setup) : bool :=
+  match a, b with
+  | [], [] => true
+  | x :: a', y :: b' => Setup_eqb x y && setups_eqb a' b'
+  | _, _ => false
+  end.
 Definition Suite_eqb (a b : Suite) : bool :=
   opt_eqb SrtpProfile_eqb (map_crypto_suite a) (map_crypto_suite b) &&
   match a, b with Suite_unknown, Suite_unknown => true | Suite_unknown, _ | _, Suite_unknown => false | _, _ => true end.
@@ -47,7 +54,12 @@ Definition expected_keys (p : point) (role : option bool) (profile : option Z) (
 
 Definition side_ok (p : point) (setup : option Setup) (bundle mux : bool) (role : option bool)
            (profile : option Z) (suite : Suite) (s : side_obs) : bool :=
-  opt_eqb Setup_eqb (s_setup s) setup && Bool.eqb (s_bundle s) bundle && Bool.eqb (s_mux s) mux &&
+  (* the peer reads back exactly the value the model says was emitted, and the description has the
+     shape `described_setups` (one value per section, none at session level) *)
+  opt_eqb Setup_eqb (first_setup (s_setups s) (s_session_setup s)) setup &&
+  setups_eqb (s_setups s) (fst (described_setups setup (mix_sections (p_mix p)))) &&
+  opt_eqb Setup_eqb (s_session_setup s) (snd (described_setups setup (mix_sections (p_mix p)))) &&
+  Bool.eqb (s_bundle s) bundle && Bool.eqb (s_mux s) mux &&
   bool_opt_eqb (s_role s) role &&
   bool_opt_eqb (s_dtls_client s) (if is_webrtc (p_mode p) then role else None) &&
   opt_eqb Z.eqb (s_profile s) profile &&
